@@ -1,4 +1,6 @@
--- stub: component `patch` not built yet
+import Driver.Patch
+open Driver
+
 def main : IO UInt32 := do
-  IO.eprintln "driver-patch: not implemented"
-  return 2
+  runComponent ({} : Patch.St) Patch.step
+  return 0
